@@ -9,6 +9,20 @@ use crate::wire::*;
 pub fn check(a: &Analysis, _aux: &mut Aux, t: &mut Tally) -> Vec<Violation> {
     let mut v = Vec::new();
     let cfg = &a.hist.config;
+    // Over TCP a STUN request may be spread over several segments (the responder reassembles the
+    // bytes received before the protocol was identified): the change-port exception is judged
+    // on the stream up to and including the segment, not on the segment alone.
+    let mut stream_cp: std::collections::BTreeMap<usize, (usize, usize)> = std::collections::BTreeMap::new();
+    for st in a.tcp_streams() {
+        for sg in &st.segs {
+            let prefix = &st.stream[..sg.off + sg.len];
+            if let Some(m) = stun::parse(prefix) {
+                if m.is_binding_request() && m.tiles {
+                    stream_cp.insert(a.steps[sg.si].idx, (m.change_port_count(), m.odd_change_requests()));
+                }
+            }
+        }
+    }
     for s in &a.steps {
         let (rep, rraw) = match (&s.reply, &s.reply_raw) {
             (Some(r), Some(raw)) => (r, raw),
@@ -93,6 +107,7 @@ pub fn check(a: &Analysis, _aux: &mut Aux, t: &mut Tally) -> Vec<Violation> {
             let stun_cp = stun::parse(app)
                 .filter(|m| m.is_binding_request() && m.tiles)
                 .map(|m| (m.change_port_count(), m.odd_change_requests()))
+                .or_else(|| stream_cp.get(&s.idx).copied())
                 .unwrap_or((0, 0));
             let is_stun_reply = rep
                 .app(rraw)
@@ -116,6 +131,22 @@ pub fn check(a: &Analysis, _aux: &mut Aux, t: &mut Tally) -> Vec<Violation> {
                         bad("src-port-change", format!("STUN change-port x{} answered from port {} (request to {})", k, rs, qd));
                     }
                 }
+            } else if rs != qd && {
+                // a change-port request followed by trailing bytes (length field shorter than the
+                // payload): malformed, the statement does not say whether the exception applies
+                let l = if app.len() >= 20 { 20 + (((app[2] as usize) << 8) | app[3] as usize) } else { usize::MAX };
+                l < app.len()
+                    && stun::parse(&app[..l])
+                        .map(|m| m.is_binding_request() && m.tiles && m.change_port_count() >= 1 && rs.wrapping_sub(qd) as usize <= m.change_port_count())
+                        .unwrap_or(false)
+            } {
+                t.any("stun-change-port-request-with-trailing-bytes");
+            } else if rs != qd
+                && s.tcp.as_ref().map(|ti| matches!(ti.data, Some(crate::model::DataVerdict::Unknown) | Some(crate::model::DataVerdict::Collision)) || a.dirty_flows.contains(&ti.flow)).unwrap_or(false)
+            {
+                // the flow's earlier bytes are not known to the model (cookie never observed in this
+                // history): whether a STUN change-port request was completed here cannot be told
+                t.any("stream-of-flow-unknown");
             } else if rs != qd {
                 bad("src-port", format!("reply source port {} is not the request's destination port {}", rs, qd));
             }
